@@ -300,7 +300,7 @@ func c16(c *core.Ctx) {
 		}
 		for _, cs := range ssax.Calls(a, false, nil) {
 			if i := isSetter(cs.Callee.Func); i >= 0 && i < len(cs.Instr.Common().Args) {
-				advs = append(advs, adv{cs.Instr, cs.Instr.Common().Args[i]})
+				advs = append(advs, adv{cs.Instr, rawArgs(cs.Instr)[i]})
 			}
 		}
 		for _, ad := range advs {
@@ -351,13 +351,13 @@ func c16(c *core.Ctx) {
 		if !ok || !isCallTo(call, "(*container/list.Element).Next") {
 			return
 		}
-		recv := call.Call.Args[0]
+		recv := rawArgs(call)[0]
 		appended := false
 		for _, ap := range ssax.Calls(fe, false, ssax.ByName("builtin:append")) {
 			if !ssax.Dominates(ap.Instr, call) {
 				continue
 			}
-			for _, a := range ap.Instr.Common().Args[1:] {
+			for _, a := range rawArgs(ap.Instr)[1:] {
 				if ssax.AnyIn(ssax.Backward(a), func(v ssa.Value) bool {
 					fa, isFA := v.(*ssa.FieldAddr)
 					return isFA && ssax.FieldOf(fa).Name() == "Value" && (fa.X == recv || ssax.SameExpr(fa.X, recv))
